@@ -72,6 +72,19 @@ def generate(seed, mode="c01", base_cfg=None):
                 for n_ in names:
                     out.append(["readd", op[1], n_, "set" if hash64(seed, "readdhow", n_) % 2 else "add"])
         ops = out
+    if mode == "c04" and hash64(seed, "mulkeep") % 3 == 0:
+        # a connected instance is multiplied into an array and then also added in its own right:
+        # both are wired per the connections made to the instance (drawn off the tape)
+        ext = next((op for op in ops if op[0] == "ext"), None)
+        end_at = next((i for i, op in enumerate(ops) if op[0] == "end" and op[1] == top), None)
+        if ext is not None and end_at is not None:
+            n_ = 2 + hash64(seed, "mulkeepn") % 2
+            new, conns_ = [], {}
+            for pname, w, _d in ext[3]:
+                new.append(["sig", top, f"zk_{pname}", w, "i", "n"])
+                conns_[pname] = ["s", f"zk_{pname}"]
+            new.append(["arr", top, "zkarr", ["ext", ext[1], {"a": 77}], n_, "mul_keep", conns_])
+            ops = ops[:end_at] + new + ops[end_at:]
     scn = {
         "profile": "conn",
         "mode": mode,
